@@ -108,6 +108,12 @@ def typed_expr(draw, T: str, depth: int, scope: Dict[str, str], opts: Optional[d
     def sub(T2: str, sc: Optional[Dict[str, str]] = None) -> Tuple:
         return draw(typed_expr(T2, depth - 1, sc if sc is not None else scope, opts))
 
+    def macro_receiver(K: str) -> Tuple:
+        """A list of K or (one time in four) a map keyed by K: macros iterate over the keys of a map."""
+        if K in KEYK and draw(st.integers(0, 3)) == 0:
+            return sub(f"map<{K},{'int' if K == 'string' else 'string'}>")
+        return sub(f"list<{K}>")
+
     def lit() -> Tuple:
         if T.startswith("list<"):
             inner = T[5:-1]
@@ -155,6 +161,8 @@ def typed_expr(draw, T: str, depth: int, scope: Dict[str, str], opts: Optional[d
         choices += ["dur_arith"]
     elif T == "type":
         choices = ["typeof"]
+    elif T == "null":
+        choices += ["select", "select", "map_index", "list_index"]  # fields / entries that are present with the value null
     choices = [c for c in choices if c not in opts.get("exclude", ())]
     c = draw(st.sampled_from(choices))
 
@@ -186,7 +194,7 @@ def typed_expr(draw, T: str, depth: int, scope: Dict[str, str], opts: Optional[d
             return ("method", recv, "matches", (pat,))
         return ("call", "matches", (recv, pat))
     if c == "has":
-        return ("has", sub(draw(st.sampled_from(["map<string,int>", "map<string,list<int>>"]))), draw(st.sampled_from(FIELD_NAMES)))
+        return ("has", sub(draw(st.sampled_from(["map<string,int>", "map<string,list<int>>", "map<string,null>"]))), draw(st.sampled_from(FIELD_NAMES)))
     if c in ("and", "or"):
         return ("bin", "&&" if c == "and" else "||", sub("bool"), sub("bool"))
     if c == "not":
@@ -196,7 +204,7 @@ def typed_expr(draw, T: str, depth: int, scope: Dict[str, str], opts: Optional[d
         var = draw(st.sampled_from(["x", "y"]))
         sc = dict(scope)
         sc[var] = K
-        return ("macro", sub(f"list<{K}>"), c, var, sub("bool", sc))
+        return ("macro", macro_receiver(K), c, var, sub("bool", sc))
     if c == "arith":
         op = draw(st.sampled_from(["+", "-", "*", "/", "%"] if T != "double" else ["+", "-", "*", "/"]))
         return ("bin", op, sub(T), sub(T))
@@ -232,13 +240,13 @@ def typed_expr(draw, T: str, depth: int, scope: Dict[str, str], opts: Optional[d
         var = draw(st.sampled_from(["x", "y"]))
         sc = dict(scope)
         sc[var] = K
-        return ("macro", sub(f"list<{K}>"), "map", var, sub(inner, sc))
+        return ("macro", macro_receiver(K), "map", var, sub(inner, sc))
     if c == "filter":
         inner = T[5:-1]
         var = draw(st.sampled_from(["x", "y"]))
         sc = dict(scope)
         sc[var] = inner
-        return ("macro", sub(T), "filter", var, sub("bool", sc))
+        return ("macro", macro_receiver(inner) if inner in KEYK else sub(T), "filter", var, sub("bool", sc))
     if c == "ts_arith":
         k = draw(st.integers(0, 2))
         if k == 0:
@@ -268,6 +276,131 @@ def typed_program(draw, max_depth: int = 4, root_types: Optional[List[str]] = No
     used = sorted({x[1] for x in ir.walk(node) if x[0] == "var" and x[1] in kinds})
     env = {name: (kinds[name], draw(payload_of(kinds[name]))) for name in used}  # payloads only for the variables the program reads
     return node, T, env
+
+
+@st.composite
+def nested_macro_program(draw, var_kinds: Optional[Dict[str, str]] = None):
+    """outer.MACRO(x, ... inner.MACRO(y, body mentioning x and y) ...): the inner body captures the outer iteration variable, the outer
+    collection has >= 2 elements (mostly distinct), optionally a third level, a shadowing inner variable, or a map receiver."""
+    from vf import ir
+
+    kinds = dict(var_kinds or VAR_KINDS)
+    K = draw(st.sampled_from(["int", "int", "string", "uint"]))
+    scope = dict(kinds)
+
+    def coll(sc: Dict[str, str], iters: Tuple[str, ...]) -> Tuple:
+        k = draw(st.integers(0, 5))
+        vs = [v for v in _vars_of(sc, f"list<{K}>") if v in kinds and v not in iters]
+        if k == 0 and vs:
+            return ("var", draw(st.sampled_from(vs)))
+        if k == 1 and iters:
+            v = draw(st.sampled_from(iters))
+            return ("list", (("var", v), draw(typed_expr(K, 0, sc)), ("var", v)))
+        n = draw(st.integers(2, 4))
+        return ("list", tuple(("lit", K, p) for p in draw(st.lists(payload_of(K), min_size=n, max_size=n, unique_by=repr))))
+
+    def level(depth: int, sc: Dict[str, str], want_bool: bool, outer_iters: Tuple[str, ...] = ()) -> Tuple:
+        var = "xyz"[depth] if draw(st.integers(0, 6)) else draw(st.sampled_from(["x", "y"]))  # now and then an inner variable shadows an outer one
+        names = ["all", "exists", "exists_one"] if want_bool else ["map", "map", "filter", "all", "exists", "exists_one"]
+        m = draw(st.sampled_from(names))
+        c = coll(sc, outer_iters)
+        sc2 = dict(sc)
+        sc2[var] = K
+        iters = tuple(v for v in outer_iters if v != var) + (var,)
+        body_bool = m != "map"
+        if depth < draw(st.integers(1, 2)):
+            body = level(depth + 1, sc2, body_bool, iters)
+            if body_bool and draw(st.integers(0, 3)) == 0:
+                body = ("bin", draw(st.sampled_from(["&&", "||"])), draw(typed_expr("bool", 1, sc2)), body)
+        else:
+            outer = [v for v in iters if v != var] or list(iters)
+            a, b = ("var", var), ("var", draw(st.sampled_from(outer)))
+            if draw(st.booleans()):
+                a, b = b, a
+            k = draw(st.integers(0, 4))
+            if body_bool:
+                body = (("bin", draw(st.sampled_from(["==", "!=", "<", "<=", ">", ">="])), a, b) if k < 3 else
+                        ("bin", "in", a, ("list", (b, draw(typed_expr(K, 0, sc2))))) if k == 3 else draw(typed_expr("bool", 2, sc2)))
+            else:
+                body = (("list", (a, b)) if k < 2 else ("bin", "+", a, b) if k == 2 and K != "uint" else ("cond", ("bin", "==", a, b), a, draw(typed_expr(K, 1, sc2))))
+        return ("macro", c, m, var, body)
+
+    node = level(0, scope, False)
+    if draw(st.integers(0, 4)) == 0:
+        node = ("bin", "==", node, node)
+    used = sorted({x[1] for x in ir.walk(node) if x[0] == "var" and x[1] in kinds})
+    env = {name: (kinds[name], draw(payload_of(kinds[name]))) for name in used}
+    return node, "dyn", env
+
+
+def json_document(max_leaves: int = 12):
+    keys = st.sampled_from(FIELD_NAMES + ["zz", "x-y", ""])
+    leaf = st.one_of(st.none(), st.none(), st.booleans(), st.integers(-5, 5), small_int(), st.sampled_from(["", "a", "ab", "zz"]), small_string(),
+                     st.sampled_from([0.0, 1.5, -2.0]))
+    return st.dictionaries(keys, st.recursive(leaf, lambda ch: st.one_of(st.lists(ch, max_size=3), st.dictionaries(keys, ch, max_size=3)), max_leaves=max_leaves),
+                           min_size=1, max_size=4)
+
+
+@st.composite
+def document_program(draw):
+    """A JSON-like document bound to `doc` and an expression navigating it along a path drawn FROM the document (so that selections hit: fields
+    present with null / false / 0 / '' / [] / {} values included), or a near miss (absent key, index out of range), used in a way that fits the
+    kind of value found there."""
+    import re as _re
+
+    doc = draw(json_document())
+    e: Tuple = ("var", "doc")
+    v: Any = doc
+    parent: Optional[Tuple] = None  # (expression of the enclosing map, key) when the last step selected a map entry
+    missing = False
+    for _ in range(draw(st.integers(1, 4))):
+        parent = None
+        if isinstance(v, dict):
+            miss = not v or draw(st.integers(0, 7)) == 0
+            k = draw(st.sampled_from(["nope", "a", "q"])) if miss else draw(st.sampled_from(sorted(v)))
+            ident = bool(_re.fullmatch(r"[a-z_][a-z0-9_]*", k))
+            parent = (e, k) if ident else None
+            e = ("select", e, k) if ident and draw(st.integers(0, 3)) else ("index", e, ("lit", "string", k))
+            if k not in v:
+                missing = True
+                break
+            v = v[k]
+        elif isinstance(v, list):
+            miss = not v or draw(st.integers(0, 7)) == 0
+            i = draw(st.sampled_from([len(v), -1, len(v) + 3])) if miss else draw(st.integers(0, len(v) - 1))
+            e = ("index", e, ("lit", "int", i))
+            if not (0 <= i < len(v)):
+                missing = True
+                break
+            v = v[i]
+        else:
+            break
+    null = ("lit", "null", None)
+    uses: List[Tuple] = [e, ("bin", "==", e, null), ("bin", "!=", e, null), ("list", (e,)), ("map", ((("lit", "string", "k"), e),)),
+                         ("cond", ("bin", "==", e, null), ("lit", "string", "null"), ("lit", "string", "set"))]
+    if parent is not None:
+        h = ("has", parent[0], parent[1])
+        uses += [h, h, ("cond", h, e, ("lit", "string", "absent")), ("bin", "&&", h, ("bin", "!=", e, null)), ("bin", "||", ("un", "!", h), ("bin", "==", e, null)),
+                 ("bin", "in", ("lit", "string", parent[1]), parent[0]),
+                 ("macro", ("list", (parent[0],)), draw(st.sampled_from(["exists", "all", "filter", "map"])), "d", ("bin", "==", ("select", ("var", "d"), parent[1]), null))]
+    if not missing:
+        if isinstance(v, bool):
+            uses += [("un", "!", e), ("bin", "&&", e, ("lit", "bool", True)), ("cond", e, ("lit", "int", 1), ("lit", "int", 2))]
+        elif isinstance(v, int):
+            uses += [("bin", "+", e, ("lit", "int", 1)), ("bin", "<", e, ("lit", "int", 0)), ("bin", "==", e, ("lit", "int", v)), ("bin", "in", e, ("list", (("lit", "int", 0), ("lit", "int", v))))]
+        elif isinstance(v, float):
+            uses += [("bin", "+", e, ("lit", "double", 1.0)), ("bin", "<", e, ("lit", "double", 0.0))]
+        elif isinstance(v, str):
+            uses += [("bin", "+", e, ("lit", "string", "x")), ("call", "size", (e,)), ("method", e, "startsWith", (("lit", "string", "a"),)), ("bin", "==", e, ("lit", "string", v))]
+        elif isinstance(v, list):
+            uses += [("call", "size", (e,)), ("bin", "+", e, e), ("bin", "==", e, e), ("macro", e, "map", "x", ("list", (("var", "x"),))),
+                     ("macro", e, draw(st.sampled_from(["exists", "all", "exists_one", "filter"])), "x", ("bin", "==", ("var", "x"), null))]
+        elif isinstance(v, dict):
+            uses += [("call", "size", (e,)), ("bin", "==", e, e), ("macro", e, "map", "k", ("var", "k")), ("macro", e, "filter", "k", ("lit", "bool", True)),
+                     ("macro", e, draw(st.sampled_from(["all", "exists", "exists_one", "filter"])), "k", ("bin", "!=", ("var", "k"), ("lit", "string", draw(st.sampled_from(["", "a", "zz"]))))),
+                     ("macro", e, draw(st.sampled_from(["all", "exists", "filter", "map"])), "k", ("bin", "==", ("index", e, ("var", "k")), null))]
+    node = draw(st.sampled_from(uses))
+    return node, "dyn", {"doc": ("json", doc)}
 
 
 # ---------------------------------------------------------------------------------------------------
